@@ -35,19 +35,15 @@ ASSUMPTIONS = [
     '(CPython 3.12.1: unpicklable return value -> raised=AttributeError/PicklingError; SystemExit -> raised=SystemExit, exit code 0; '
     'SIGINT while the function runs -> raised=KeyboardInterrupt, exit code 0; SIGINT during boot -> neither, exit code 1 or -2)',
     'cancellation of the task that awaits the handle is outside the quantifier of C17 and not modelled',
-    "'raise' covers a family of classes (WorkerError, ValueError, KeyboardInterrupt, asyncio.CancelledError, GeneratorExit, a custom BaseException, "
-    "StopAsyncIteration): `raised` must be an instance of the class the function raised, same args. Four further kinds deviate from that letter on the "
-    "unchanged tree and are run only with VERIF_C17_ALL_EXC=1 until a decision is taken: StopIteration (the executor's future is never resolved in the loop: "
-    "hang:future-never-completes), concurrent.futures.CancelledError (arrives as asyncio.CancelledError), an exception that cannot be rebuilt in the parent "
-    "(neither value nor exception, worker terminated, exit code -15), an exception that cannot be pickled in the child (arrives as the pickling error)",
-    'known finding hang:log-listener-never-ends (worker dies inside a log-pipe write) is part of the model (world flag died_in_log_write); '
-    'corpus/C17/kill_while_logging.json reproduces it on every run',
-    'helper thread of the repaired shutdown = a worker of the loop\'s default executor (asyncio_N), counted as the loop\'s own; every other '
-    'thread must be gone once all references are dropped',
-    'instants: Boot = the function never started; Running = the function had started and cannot finish by itself; '
-    'Racing = everything else (classified from marker files written by the worker)',
-    '"before exit" for interrupt/terminate/kill = the worker is verifiably alive by construction (boot, or blocked in the function); '
-    'requests issued after the handle was awaited are compared with the model only (send_signal raises ProcessLookupError there)',
+"'raise' covers a family of classes (WorkerError, ValueError, KeyboardInterrupt raised by the function, asyncio.CancelledError, GeneratorExit, "
+    "a custom BaseException, StopAsyncIteration): `raised` must be an instance of the class the function raised, with the same args; these all take "
+    "the `except BaseException as e` path of _run and are one behaviour (Exn) of the model",
+    "an exception that cannot be pickled in the child is the behaviour Unpicklable (the pickling error arrives as `raised`), like an unpicklable return value",
+    "trusted about the family: pickling by reference of the exception classes of harness/proc_workers.py in both processes; which classes do not travel "
+    "faithfully is read from the runs, not derived: StopIteration (asyncio Future.set_exception refuses it: TypeError inside the _chain_future._set_state "
+    "callback, the wrapped future is never resolved -> hang:future-never-completes), concurrent.futures.CancelledError (asyncio.futures._convert_future_exc "
+    "-> asyncio.CancelledError), an exception that cannot be rebuilt in the parent (the pool breaks on unpickling, the worker is terminated, exit code -15) "
+    "-- the three are behaviours ExnOdd of the model and known findings",
 ]
 
 SIGNUM = {'SIGINT': 2, 'SIGTERM': 15, 'SIGKILL': 9}
@@ -140,18 +136,20 @@ def plain_family(rng, reps=1):
 
 # exception classes that matter to the handler chain of run_in_process._run (kinds of harness/proc_workers.EXC_KINDS)
 EXC_CONFORMING = ['worker', 'value', 'kbint', 'aio_cancelled', 'genexit', 'custom_base', 'stopaiter']
-# kinds that deviate from the letter of the property on the unchanged tree (reported to the lead, decision pending):
-# they are run only with VERIF_C17_ALL_EXC=1 so that the default verdict is about the other clauses
-EXC_DEVIATING = ['stopiter', 'cf_cancelled', 'unloadable_exc', 'unpicklable_exc']
+# cannot be pickled in the child: treated exactly like the 'unpicklable' return (the pickling error arrives as `raised`)
+EXC_UNPICKLABLE = ['unpicklable_exc']
+# known findings (known_findings.json): the transport does not carry these classes faithfully
+EXC_FINDINGS = ['cf_cancelled', 'unloadable_exc']
+EXC_HANGS = ['stopiter']            # known finding hang:future-never-completes: every run costs its timeout
+HANG_TIMEOUT = 5
 
 
-def exc_family(rng, kinds=None):
+def exc_family(rng, hangs: bool):
     """the function raises an exception of each class, with/without log collection and initializer (no timing involved)"""
-    kinds = kinds if kinds is not None else EXC_CONFORMING + (EXC_DEVIATING if os.environ.get('VERIF_C17_ALL_EXC') else [])
     out = []
-    for k in kinds:
+    for k in EXC_CONFORMING + EXC_UNPICKLABLE + EXC_FINDINGS + (EXC_HANGS if hangs else []):
         for clog, init in CFGS:
-            out.append(S('raise', rng.choice([1, 3, 7]), clog, init, None, exc=k, timeout=6 if k in EXC_DEVIATING else SCN_TIMEOUT))
+            out.append(S('raise', rng.choice([1, 3, 7]), clog, init, None, exc=k, timeout=HANG_TIMEOUT if k in EXC_HANGS else None))
     return out
 
 
@@ -219,7 +217,7 @@ def linger_family(rng, n):
 def gen_scenarios(rng, tier: str) -> list[dict]:
     if tier == 'quick':
         scn = plain_family(rng)                                               # 20
-        scn += exc_family(rng)                                                # 28
+        scn += exc_family(rng, hangs=False)                                   # 40 (+ one StopIteration run from the corpus)
         scn += running_family(rng, ['interrupt', 'terminate', 'kill'])        # 12
         scn += boot_family(rng, [0.0, 0.03, 0.08, 0.12])                      # 12
         scn += race_family(rng, [-0.01, 0.0, 0.004, 0.01])                    # 12
@@ -227,7 +225,7 @@ def gen_scenarios(rng, tier: str) -> list[dict]:
         scn += linger_family(rng, 2)                                          # 2
     else:
         scn = plain_family(rng, reps=3)                                       # 60
-        scn += exc_family(rng) + exc_family(rng)                              # 56
+        scn += exc_family(rng, hangs=True) + exc_family(rng, hangs=False)     # 84
         scn += running_family(rng) + running_family(rng)                      # 48
         scn += boot_family(rng, [i * 0.005 for i in range(0, 44)])            # 132
         scn += race_family(rng, [(-0.02 + i * 0.0015) for i in range(0, 60)]) # 180
@@ -242,7 +240,9 @@ def classify(scn: dict, o: dict):
     """-> (behaviour term, signal term or None, label dict)"""
     sp = scn['spec']
     out, n = sp['outcome'], int(sp.get('n', 0))
-    beh = {'return': f'Ret {cz(n)}', 'raise': f'Exn {cz(n)}', 'unpicklable': 'Unpicklable', 'sysexit': f'SysExit {cz(n)}',
+    exc_beh = {'stopiter': f'ExnOdd OStopIteration {cz(n)}', 'cf_cancelled': f'ExnOdd OCfCancelled {cz(n)}',
+               'unloadable_exc': f'ExnOdd OUnloadable {cz(n)}', 'unpicklable_exc': 'Unpicklable'}.get(sp.get('exc', 'worker'), f'Exn {cz(n)}')
+    beh = {'return': f'Ret {cz(n)}', 'raise': exc_beh, 'unpicklable': 'Unpicklable', 'sysexit': f'SysExit {cz(n)}',
            'hardexit': f'HardExit {cz(n)}', 'block': f'Ret {cz(n)}', 'logloop': f'Ret {cz(n)}'}[out]
     s = scn.get('signal')
     if not s or o.get('sig_call') is None or o.get('signal_not_sent'):
@@ -260,7 +260,10 @@ def classify(scn: dict, o: dict):
 def exn_kind(name, scn=None, o=None) -> int:
     if scn is not None and o is not None and scn['spec']['outcome'] == 'raise' and not (scn.get('signal') and o.get('sig_call')):
         # the worker's own exception = an instance of the class the function raised
-        return 1 if expected_exc_class(scn) in (o.get('raised_mro') or []) else 0
+        if expected_exc_class(scn) in (o.get('raised_mro') or []):
+            return 1
+        if o.get('raised_qual') == 'asyncio.exceptions.CancelledError':
+            return 5
     if name == 'WorkerError':
         return 1
     if name in PICKLE_TYPES:
@@ -283,7 +286,7 @@ def shape_term(o: dict, scn=None) -> str:
     return 'ShNeither'
 
 
-HANG_CODE = {'executor-shutdown-blocks-loop': 1, 'log-listener-never-ends': 2}
+HANG_CODE = {'executor-shutdown-blocks-loop': 1, 'log-listener-never-ends': 2, 'future-never-completes': 4}
 
 
 def worker_logs(scn: dict) -> bool:
@@ -358,6 +361,8 @@ def oracle(scn: dict, o: dict) -> list[tuple[str, str]]:
     natural_ok = False
     if out == 'return':
         natural_ok = bool(hr) and not rt and o.get('returned_n') == n
+    elif out == 'raise' and sp.get('exc') in EXC_UNPICKLABLE:
+        natural_ok = not (hr and rt)     # as for an unpicklable return value
     elif out == 'raise':
         natural_ok = (not hr) and expected_exc_class(scn) in (o.get('raised_mro') or []) and o.get('raised_args') == [n]
     elif out in ('unpicklable', 'sysexit'):
